@@ -17,6 +17,10 @@ type Store struct {
 	FailStore int
 	Calls     []string
 	kv        [][2][]byte
+	// SplitInts: SetUint64/GetUint64 live in a key space of their own, as in raft.InmemStore
+	// (callers must not assume Set and SetUint64 share one)
+	SplitInts bool
+	kvi       []intKV
 }
 
 func New() *Store { return &Store{} }
@@ -133,7 +137,22 @@ func (s *Store) Get(k []byte) ([]byte, error) {
 	}
 	return nil, nil
 }
+type intKV struct {
+	k string
+	v uint64
+}
+
 func (s *Store) SetUint64(k []byte, v uint64) error {
+	if s.SplitInts {
+		for i := range s.kvi {
+			if s.kvi[i].k == string(k) {
+				s.kvi[i].v = v
+				return nil
+			}
+		}
+		s.kvi = append(s.kvi, intKV{string(k), v})
+		return nil
+	}
 	b := make([]byte, 8)
 	for i := 0; i < 8; i++ {
 		b[i] = byte(v >> (8 * i))
@@ -141,6 +160,14 @@ func (s *Store) SetUint64(k []byte, v uint64) error {
 	return s.Set(k, b)
 }
 func (s *Store) GetUint64(k []byte) (uint64, error) {
+	if s.SplitInts {
+		for i := range s.kvi {
+			if s.kvi[i].k == string(k) {
+				return s.kvi[i].v, nil
+			}
+		}
+		return 0, nil
+	}
 	b, _ := s.Get(k)
 	if len(b) != 8 {
 		return 0, nil
